@@ -4,3 +4,13 @@ add('C17', 'exploration', 'differential runtime monitor vs reference decoder ove
     'Both decoders are run on every enumerated word (all 2^32 in the thorough tier, exhaustive: true) and the monitor compares decodability, opcode and PC-relative operands and catches panics from Decode and String; a finite space enumerated completely is as strong as execution-based checking gets.',
     'Trusts the upstream golang.org/x/arch arm64 decoder vendored in GOROOT as reference; the excluded class is fixed by encoding (word & 0xFFC00000 == 0xD5000000).',
     'DESIGN.md 2 C17')
+
+add('C16', 'exploration', 'differential runtime monitor vs reference decoder over every instruction of large Go binaries + structural totality fuzzing',
+    'goom\'s decoder and the upstream decoder are run in lock-step over every pclntab function of several Go toolchain binaries (millions of compiler-emitted instructions) and on millions of random / bit-mutated byte strings under recover with structural bounds on Len/PCRel/PCRelOff; sampled, not exhaustive, over byte strings.',
+    'Trusts upstream golang.org/x/arch/x86asm (GOROOT vendor copy) as reference; positions the reference cannot decode have no oracle and are counted.',
+    'DESIGN.md 2 C16')
+
+add('C15', 'exploration', 'runtime monitor: real emitters driven over exhaustive 16-bit lanes and the rel32 decision band, bytes interpreted symbolically via reference decoders',
+    'The emitters themselves are executed on every value of each 16-bit lane (several bases), every offset in a band around the +-2GiB decision boundary and random pairs; the bytes are decoded by the reference decoders and the resulting control transfer is computed and compared with the request. Exhaustive per lane and across the band, sampled elsewhere.',
+    'Trusts the reference decoders; arm64 emitters are the current /repo sources compiled for amd64 (pure Go).',
+    'DESIGN.md 2 C15')
